@@ -179,6 +179,9 @@ type KindInfo struct {
 
 var kinds [NumKinds]KindInfo
 
+// onMark is set by a Builder while it builds, to record Mark references.
+var onMark func(layer, ref error)
+
 // Info returns the description of a kind.
 func Info(k Kind) *KindInfo { return &kinds[k] }
 
@@ -353,7 +356,13 @@ func init() {
 	def(WAssert, KindInfo{Name: "errors.WithAssertionFailure", Arity: Wrap, Groups: GLib | GAnnot, Weight: 3,
 		build: func(n *Node, k, _ []error) error { return errors.WithAssertionFailure(k[0]) }})
 	def(WMark, KindInfo{Name: "errors.Mark", Arity: Wrap, Groups: GLib | GMark, NHid: 1,
-		build: func(n *Node, k, hid []error) error { return errors.Mark(k[0], hid[0]) }})
+		build: func(n *Node, k, hid []error) error {
+			e := errors.Mark(k[0], hid[0])
+			if onMark != nil {
+				onMark(e, hid[0])
+			}
+			return e
+		}})
 	def(WSecondary, KindInfo{Name: "errors.WithSecondaryError", Arity: Wrap, Groups: GLib | GSecondary, NHid: 1,
 		build: func(n *Node, k, hid []error) error { return errors.WithSecondaryError(k[0], hid[0]) }})
 	def(WCombine, KindInfo{Name: "errors.CombineErrors", Arity: Wrap, Groups: GLib | GSecondary, NHid: 1, Weight: 2,
